@@ -1,6 +1,7 @@
 package props
 
 import (
+	"go/types"
 	"fmt"
 	"go/constant"
 	"go/token"
@@ -10,6 +11,7 @@ import (
 	"golang.org/x/tools/go/ssa"
 
 	"verif/internal/engine/bounds"
+	"verif/internal/engine/paths"
 	"verif/internal/ir"
 )
 
@@ -25,6 +27,7 @@ func checkC03(c *Ctx) {
 	c.decodeLoopConservation()
 	c.decodeBufferExact()
 	c.dirtyDiscipline()
+	c.lengthAndWriterAgree()
 	c.lenOrdering()
 	c.typeTables()
 	c.flagBitTables()
@@ -133,8 +136,122 @@ func (c *Ctx) decodeBufferExact() {
 	c.R.Floor("successful returns of header.decode", n, 1)
 }
 
+// viewsOfDecodeBuffer: the setters may change mtypeflags[0] and the packetID bytes in place without
+// marking the message dirty only because those fields are views into the decode buffer, which Encode of a
+// clean message copies. Every decoder must therefore store them as sub-slices of its input.
+func (c *Ctx) viewsOfDecodeBuffer() {
+	n := 0
+	for _, fn := range c.P.Funcs {
+		if fn.Pkg == nil || fn.Pkg.Pkg.Path() != pkgMessage || fn.Signature.Recv() == nil || fn.Parent() != nil {
+			continue
+		}
+		switch fn.Name() {
+		case "Decode", "decode", "decodeMessage":
+		default:
+			continue
+		}
+		var src ssa.Value
+		for _, p := range fn.Params {
+			if _, ok := p.Type().Underlying().(*types.Slice); ok {
+				src = p
+			}
+		}
+		if src == nil {
+			continue
+		}
+		for _, b := range fn.Blocks {
+			for _, in := range b.Instrs {
+				st, ok := in.(*ssa.Store)
+				if !ok {
+					continue
+				}
+				p := ir.PathOf(st.Addr)
+				if len(p.Fields) == 0 {
+					continue
+				}
+				field := p.Fields[len(p.Fields)-1]
+				if field != "mtypeflags" && field != "packetID" {
+					continue
+				}
+				n++
+				isView := false
+				v := st.Val
+				for i := 0; i < 4; i++ {
+					sl, ok := v.(*ssa.Slice)
+					if !ok {
+						break
+					}
+					if ir.SeeThrough(sl.X) == src {
+						isView = true
+						break
+					}
+					v = ir.SeeThrough(sl.X)
+				}
+				c.R.Check(isView, "T3-dirty-discipline", fmt.Sprintf("%s:%s-is-view-of-input", fname(fn), field), c.P.InstrPos(st),
+					field+" = src[a:b]: in-place changes show in the decode buffer", "the decoder stores a copy in "+field+" instead of a sub-slice of its input: setters that change it in place without marking the message dirty (SetDup, SetRetain, SetQoS within QoS>0, SetPacketID) no longer change the bytes Encode sends for a decoded message")
+			}
+		}
+	}
+	c.R.Count("decoder stores of in-place-mutable header views", n)
+	c.R.Floor("decoder stores of in-place-mutable header views (mtypeflags, packetID)", n, 6)
+}
+
+// setQoSMarksDirtyWhenIDAppears: PublishMessage.SetQoS changes the packet's length exactly when the QoS
+// moves between 0 and non-zero (the packet identifier appears / disappears): in both directions every
+// successful path must mark the message dirty.
+func (c *Ctx) setQoSMarksDirtyWhenIDAppears() {
+	fn := c.P.Func("message", "PublishMessage", "SetQoS")
+	if fn == nil {
+		c.R.Unresolved("message.PublishMessage.SetQoS")
+		return
+	}
+	g := paths.New(c.P, fn, 0)
+	entry := []paths.Node{g.Entry()}
+	isDirty := func(n paths.Node) bool {
+		st, ok := n.Instr.(*ssa.Store)
+		if !ok {
+			return false
+		}
+		p := ir.PathOf(st.Addr)
+		k, isK := st.Val.(*ssa.Const)
+		return len(p.Fields) > 0 && p.Fields[len(p.Fields)-1] == "dirty" && isK && k.Value != nil && k.Value.ExactString() == "true"
+	}
+	okReturn := func(n paths.Node) bool {
+		ret, ok := n.Instr.(*ssa.Return)
+		if !ok {
+			return false
+		}
+		if len(ret.Results) == 0 {
+			return true
+		}
+		k, ok := ir.ReturnOperand(ret, len(ret.Results)-1).(*ssa.Const)
+		return ok && k.IsNil()
+	}
+	pn := "v"
+	if len(fn.Params) >= 2 {
+		pn = fn.Params[1].Name()
+	}
+	old := "PublishMessage.QoS"
+	for _, sc := range []struct {
+		name string
+		as   Assume
+	}{
+		{"raised-from-0", Assume{"gt:" + old + ":0": false, "eq:" + old + ":0": true, "lt:" + old + ":1": true, "gt:" + pn + ":0": true, "eq:" + pn + ":0": false, "lt:" + pn + ":1": false}},
+		{"lowered-to-0", Assume{"gt:" + old + ":0": true, "eq:" + old + ":0": false, "lt:" + old + ":1": false, "gt:" + pn + ":0": false, "eq:" + pn + ":0": true, "lt:" + pn + ":1": true}},
+	} {
+		key := fname(fn) + ":dirty-when-" + sc.name
+		if p := reach(g, entry, isDirty, okReturn, sc.as); p != nil {
+			c.R.Bad("T3-dirty-discipline", key, c.P.Pos(fn.Pos()), "SetQoS can return successfully without marking the message dirty although the QoS was "+sc.name+": the packet identifier appears / disappears, but Encode and Len of a decoded message keep using the old image (two bytes short, or with two stale bytes)", c.witness(g, p)...)
+		} else {
+			c.R.Ok("T3-dirty-discipline", key, c.P.Pos(fn.Pos()), "every successful path marks the message dirty when the QoS is "+sc.name)
+		}
+	}
+}
+
 // dirtyDiscipline: T3.
 func (c *Ctx) dirtyDiscipline() {
+	c.viewsOfDecodeBuffer()
+	c.setQoSMarksDirtyWhenIDAppears()
 	eff := c.Effects()
 	sp := c.P.SPkgs["message"]
 	// fields read by the encoders (Encode, encode, encodeMessage, msglen) per struct
@@ -543,4 +660,163 @@ func (c *Ctx) willFlagSiblings() {
 		}
 		c.R.Check(ok, "T3-dirty-discipline", "ConnectMessage."+x.fn+":clears-will-flag-only-if-"+x.other+"-empty", c.P.Pos(fn.Pos()), "SetWillFlag(false) only when the other will field is empty too", detail+": a CONNECT with a will topic and an empty will message loses its will flag while keeping will QoS/retain - the encoded packet is rejected by the decoder")
 	}
+}
+
+// lengthAndWriterAgree: sibling agreement between msglen() and the encoder of each packet type. A
+// length-prefixed field that the encoder writes under condition G must be counted by msglen under the
+// same condition (and vice versa): otherwise Encode produces Len()+k bytes - it fails into a buffer of
+// Len() bytes, or the remaining-length field is wrong.
+func (c *Ctx) lengthAndWriterAgree() {
+	c.R.Rule("T10-length-writer-agreement", "for every packet type, each field that msglen() counts and the encoder writes is counted and written under the same guards (the branch facts on the dominator chains of the two sites, error tests of earlier writes and buffer-size tests left aside).")
+	sp := c.P.SPkgs["message"]
+	if sp == nil {
+		return
+	}
+	relevant := func(fs []fact) map[string]bool {
+		out := map[string]bool{}
+		for _, f := range fs {
+			if f.Atom == "" || strings.HasPrefix(f.Atom, "err:") || strings.HasPrefix(f.Atom, "lookup:") || strings.Contains(f.Atom, "len(dst)") || strings.Contains(f.Atom, ".dirty") {
+				continue
+			}
+			out[fmt.Sprintf("%s=%v", f.Atom, f.Truth)] = true
+		}
+		return out
+	}
+	fieldOf := func(v ssa.Value, recv ssa.Value) string {
+		p := ir.PathOf(v)
+		if p.Root != recv || len(p.Fields) == 0 || p.Opaque {
+			return ""
+		}
+		return p.Fields[len(p.Fields)-1]
+	}
+	n := 0
+	byType := map[string]map[string]*ssa.Function{}
+	for _, fn := range c.P.Funcs {
+		if fn.Pkg != sp || fn.Signature.Recv() == nil || fn.Parent() != nil {
+			continue
+		}
+		rn := recvNamed(fn)
+		if byType[rn] == nil {
+			byType[rn] = map[string]*ssa.Function{}
+		}
+		byType[rn][fn.Name()] = fn
+	}
+	var tnames []string
+	for t := range byType {
+		tnames = append(tnames, t)
+	}
+	sort.Strings(tnames)
+	for _, tn := range tnames {
+		fns := byType[tn]
+		ml := fns["msglen"]
+		if ml == nil || tn == "header" {
+			continue
+		}
+		counted := map[string]map[string]bool{}
+		for _, call := range ir.Calls(ml) {
+			bi, ok := call.Common().Value.(*ssa.Builtin)
+			if !ok || bi.Name() != "len" {
+				continue
+			}
+			if f := fieldOf(call.Common().Args[0], ml.Params[0]); f != "" {
+				// the guard itself may take len() of the field: the counting site is the one under the most guards
+				fs := relevant(c.presenceFacts(call.Block()))
+				if old, ok := counted[f]; !ok || len(fs) > len(old) {
+					counted[f] = fs
+				}
+			}
+		}
+		written := map[string]map[string]bool{}
+		wpos := map[string]string{}
+		for _, en := range []string{"Encode", "encodeMessage"} {
+			ef := fns[en]
+			if ef == nil {
+				continue
+			}
+			for _, call := range ir.Calls(ef) {
+				cc := call.Common()
+				var arg ssa.Value
+				if ir.IsFunc(cc, pkgMessage, "writeLPBytes") && len(cc.Args) == 2 {
+					arg = cc.Args[1]
+				} else if bi, ok := cc.Value.(*ssa.Builtin); ok && bi.Name() == "copy" && len(cc.Args) == 2 {
+					arg = cc.Args[1]
+				}
+				if arg == nil {
+					continue
+				}
+				if f := fieldOf(arg, ef.Params[0]); f != "" && f != "dbuf" {
+					written[f] = relevant(c.presenceFacts(call.Block()))
+					wpos[f] = c.P.InstrPos(call)
+				}
+			}
+		}
+		var fields []string
+		for f := range written {
+			if _, ok := counted[f]; ok {
+				fields = append(fields, f)
+			}
+		}
+		sort.Strings(fields)
+		for _, f := range fields {
+			n++
+			a, b := counted[f], written[f]
+			var diff []string
+			for k := range a {
+				if !b[k] {
+					diff = append(diff, "counted only if "+k)
+				}
+			}
+			for k := range b {
+				if !a[k] {
+					diff = append(diff, "written only if "+k)
+				}
+			}
+			sort.Strings(diff)
+			key := fmt.Sprintf("%s:%s:counted-iff-written", tn, f)
+			c.R.Check(len(diff) == 0, "T10-length-writer-agreement", key, wpos[f], "msglen counts the field under the same guards the encoder writes it", "msglen and the encoder of "+tn+" disagree about when "+f+" is present ("+joinStr(diff, "; ")+"): Encode writes a different number of bytes than Len() announces - it fails with 'insufficient buffer' for a buffer of Len() bytes, or the remaining-length field does not cover the packet")
+		}
+	}
+	c.R.Count("fields counted by msglen and written by the encoder", n)
+	c.R.Floor("fields counted by msglen and written by the encoder", n, 8)
+}
+
+// presenceFacts: the branch facts under which block b runs, leaving out validations - tests whose other
+// outcome makes the function return an error at once (the encoder refusing a message is not a
+// disagreement about its length).
+func (c *Ctx) presenceFacts(b *ssa.BasicBlock) []fact {
+	returnsError := func(blk *ssa.BasicBlock) bool {
+		for i := 0; i < 3 && blk != nil; i++ {
+			last := blk.Instrs[len(blk.Instrs)-1]
+			if ret, ok := last.(*ssa.Return); ok {
+				if len(ret.Results) == 0 {
+					return false
+				}
+				k, isK := ir.ReturnOperand(ret, len(ret.Results)-1).(*ssa.Const)
+				return paths.IsErrorType(ret.Results[len(ret.Results)-1].Type()) && !(isK && k.IsNil())
+			}
+			if _, ok := last.(*ssa.Jump); ok && len(blk.Succs) == 1 {
+				blk = blk.Succs[0]
+				continue
+			}
+			return false
+		}
+		return false
+	}
+	var out []fact
+	for d := b; d != nil && d.Idom() != nil; d = d.Idom() {
+		id := d.Idom()
+		iff, ok := id.Instrs[len(id.Instrs)-1].(*ssa.If)
+		if !ok {
+			continue
+		}
+		for idx, s := range id.Succs {
+			if (s == d || s.Dominates(d)) && len(s.Preds) == 1 {
+				if returnsError(id.Succs[1-idx]) {
+					continue
+				}
+				out = append(out, c.impliedFacts(iff.Cond, idx == 0, 1)...)
+			}
+		}
+	}
+	return out
 }
